@@ -375,6 +375,7 @@ spec fn cwv_post<P: AsRef<str>, V>(st: Seq<State>, tb: Seq<u32>, outs: Seq<Outpu
             && (!(kind is LeftmostFirst) ==> regs(n, item_pats(items), item_vals(items)))
             // all kinds: the trie facts from which the soundness of the leftmost stream follows (units lm_sound_*)
             && add_inv(n) && nfa_tree(n) && nfa_links(n, lm_of(kind)) && sound_facts(n)
+            && (!(kind is Standard) ==> lm_opt_facts(n))
             && values_are(n, items, items.len() as int)
             && (kind is Standard ==> searches_ok_cw(st, tb, outs, n))
             && (!(kind is Standard) ==> lm_searches_ok_cw(st, tb, outs, n))
@@ -388,7 +389,7 @@ proof fn lemma_cwv_post<P: AsRef<str>, V>(nfa: NfaBuilder<char, V>, st: Seq<Stat
         pow2(bl), asz <= bl, st.len() > 0, st.len() as int % (bl as int) == 0, st.len() <= u32::MAX,
         forall|i: int| 0 <= i < st.len() ==> ((#[trigger] st[i]).base.is_some() ==> st[i].base.unwrap()@ < st.len()),
         exists|idmap: Seq<u32>| cw_built(st, tb, nfa, idmap),
-        nfa.states@.len() == num_states + 1, add_inv(nfa), nfa.match_kind == kind, sound_facts(nfa),
+        nfa.states@.len() == num_states + 1, add_inv(nfa), nfa.match_kind == kind, sound_facts(nfa), !(kind is Standard) ==> lm_opt_facts(nfa),
     ensures cwv_post(st, tb, nfa.outputs@, num_states, items, kind),
 {
     reveal(cwv_post);
